@@ -31,7 +31,8 @@ LEVEL_TEXT = ("Generated-input search over constructed stopping games rich in ze
               "is checked against a sweep bound derived from exact expected absorption times, so 'iterates forever' "
               "becomes a finite, deterministic observation. Exploration: liveness cannot be established by testing; "
               "what is claimed is that no explored stopping game exceeded its derived bound or failed otherwise."
-              ' Added while validating sensitivity: medium-size games (20-300 states) with float-derived bounds, slowly escaping rewarded loops needing up to 1.9x10^5 sweeps (quick) / 4x10^5 (thorough), zero-probability transitions; slow games are explored up to T = 80000 / n.')
+              ' Added while validating sensitivity: medium-size games (20-300 states) with float-derived bounds, slowly escaping rewarded loops needing up to 1.9x10^5 sweeps (quick) / 4x10^5 (thorough), zero-probability transitions; slow games are explored up to T = 80000 / n.'
+              ' Later rounds: two solves (and two driver runs) through the very same dictionary, initial states that are final states, direct wins of 3e-7 ... 5e-324 from the initial state, repeated entries and duplicated self-loops next to dead successors, cut corridors of 2500 states.')
 LEVEL_NOTE = ("Trusted: harness/exact.py (T, values), the sweep bound of DESIGN 2.5, the run-time wrappers in "
               f"harness/budget.py. Only games with T <= {T_MAX} (input) and T_c <= 600 (conditioned) are explored; "
               "'no solution' is decided only when value(0) is 0 or above the numerical tolerance.")
